@@ -186,7 +186,8 @@ def c14(tier, seed):
         rule="fault = cut right after flush() returned: the bytes the destination holds at that moment are repaired in both modes; every file must come back "
              "with at least the bytes appended before the flush (plain / unauthenticated) or the bytes the independent decoder finds in completed encryption "
              "chunks (authenticated); distinct = distinct (program, flush index); non-trivial = something was appended before the flush",
-        musthit=["musthit:compressible_200000_then_flush", "musthit:flush_exactly_on_block_edge", "flush:layers0", "flush:layers1", "flush:layers2", "flush:layers3"],
+        musthit=["musthit:compressible_200000_then_flush", "musthit:flush_exactly_on_block_edge", "flush:layers0", "flush:layers1", "flush:layers2", "flush:layers3",
+                 "musthit:flush_with_less_than_a_tag_in_the_chunk_in_progress", "musthit:block_end_after_input_window_edge_last_byte_not_needed"],
     )
 
 
@@ -213,7 +214,7 @@ def c07(tier, seed):
              "incompressible content); (iii) recipients 1..6: the right key at every position among wrong keys must open, wrong keys / no key must not; "
              "distinct = distinct case; all non-trivial",
         musthit=["musthit:cross_process_archives", "scan:layers1", "scan:layers3", "keylist:opened_by_recipient", "keylist:refused_for_non_recipient",
-                 "keylist:recipient_at_position_3"],
+                 "keylist:recipient_at_position_3", "recipients:85+", "config_route:4", "config_route:5"],
         assumptions=["non-repetition and non-constant bits are observed, not randomness: a constant, counter or clock seed is caught, a subtly biased generator is not"],
     )
 
